@@ -237,6 +237,8 @@ def work(desc):
             first = o.err.decode("utf-8", "replace").split("\n")
             where = next((l for l in first if "panicked at" in l or "overflowed its stack" in l), "exit %s" % o.code)
             msg = next((l for l in first if l and "panicked at" not in l and not l.startswith("note:")), "")
+            import re
+            where = re.sub(r"\(\d+\) ", "", where)          # thread id
             out["viol"] = ("crash/" + where.split("panicked at ")[-1].strip().rstrip(":"),
                            "the interpreter crashed (exit %s): %s %s" % (o.code, where.strip(), msg.strip()),
                            {"src": r.text, "oracle": "crash classifier", "desc": repr(desc), "observed": o.brief()})
@@ -277,6 +279,8 @@ def memcheck_work(desc):
 
 
 def run(rep, tier):
+    from .. import scale
+    scale.run(rep, PROP, tier)          # size ladders (seedverif/scale.py): the entries that concern this property
     rng = core.rng_for(PROP)
     descs = []
     for shape in SHAPES:
